@@ -53,4 +53,48 @@ def obligations(ctx):
             r.status = "inconclusive"
             r.notes.append("apply_surf_only call unreachable in the encoding")
 
+    out += or_expansion(ctx)
     return out
+
+
+def or_expansion(ctx):
+    """FilterGroupBuilder::extract_or_equality_values turns `x = a OR x = b OR ...` into an IN-style
+    list that drives zone pruning: only equality leaves may be folded in."""
+    b = Builder(ctx, "filter-filter_group_builder-{impl#0}-extract_or_equality_values.",
+                "FilterGroupBuilder::extract_or_equality_values", {})
+    E, q = b.E, ctx.q
+    r = b.mk("B-2", "extract_or_equality_values returns Some (an OR folded into a list of equality values, used for zone "
+                    "pruning) only when every comparison leaf it consumed has the operator `=`; a range or `!=` leaf makes "
+                    "it return None so the OR is pruned branch by branch")
+    res = [b.results["B-2"]]
+    if not r:
+        return res
+    if not E.returns:
+        r.status = "inconclusive"
+        r.notes.append("no return")
+        return res
+    r.nontrivial = True
+    (node, reach, env) = E.returns[0]
+    ret = env.get(0)
+    d = E.discriminant(ret, E.fn.types.get(0, "")) if ret is not None else None
+    if d is None or not sym.is_term(d):
+        r.status = "inconclusive"
+        r.notes.append("return value not resolved")
+        return res
+    ops = sorted({k for k in E.domain if re.match(r"^disc\(arg:(left|right):Compare\.(op|1)\)$", k)})
+    if len(ops) < 2:
+        r.status = "inconclusive"
+        r.notes.append(f"operator discriminants of the two operands not found ({sorted(E.domain)[:6]})")
+        return res
+    for side, opname in (("left", [o for o in ops if ":left:" in o][0]), ("right", [o for o in ops if ":right:" in o][0])):
+        is_cmp = z3.BitVec(f"disc(arg:{side})", 64) == 0   # Expr::Compare is the first variant
+        op = z3.BitVec(opname, 64)
+        rr, model = q.check(reach, d == 1, is_cmp, op != 0, domain=E.domain)   # CompareOp::Eq is the first variant
+        r.queries += 1
+        if rr == z3.sat:
+            r.status = "violated"
+            r.witness = {"what": f"an OR whose {side} operand is a comparison with an operator other than `=` can be folded "
+                                 f"into an equality list (zones matching the range / != branch are then pruned)",
+                         "span": None, "call": "return", "path": E.path_of_model(model), "model": oblig.model_summary(E, model)}
+            break
+    return res
